@@ -300,6 +300,7 @@ class RunCtx:
         self.defaults: List[Tuple[str, Dict[str, Any], Any]] = []
         self.events: List[Tuple[int, str, Any, Any]] = []
         self.saves: List[Tuple[int, str, Any]] = []
+        self.frozen = False  # set before the loop is torn down
         self.closed = False  # set when the run task is done: later activity is a leak
         self.late: List[Any] = []
         self.ev_calls = 0
@@ -311,6 +312,8 @@ class RunCtx:
         self.hold: Optional[set] = None  # nodes whose bodies never complete (C06)
 
     def _rec(self, kind: str, node: str, payload: Any = None) -> int:
+        if self.frozen:
+            return self.seq
         self.seq += 1
         self.log.append((self.seq, kind, node, payload))
         if self.closed and kind in ("start", "ev", "save"):
